@@ -140,7 +140,7 @@ def is_cyclic_subsequence(small, big):
 # tissue specs
 # ======================================================================================================
 def make_tissue(ts):
-    """ts: dict(base, seed, pts, [n], [moebius, mseed], [subset], [resample], [shift], [flip], [renum, gaps])"""
+    """ts: dict(base, seed, pts, [n], [subset], [moebius, mseed], [resample], [xf], [shift], [flip], [renum, gaps])"""
     base = ts["base"]
     if base == "voronoi":
         # sample points are added after taking the subset (same result as generating them first, much cheaper)
@@ -159,6 +159,10 @@ def make_tissue(ts):
         t = gen.moebius_image(t, strength=ts["moebius"], seed=ts.get("mseed", 0))
     if ts.get("resample") is not None:
         t = gen.resample(t, ts["resample"])
+    if ts.get("xf") is not None:
+        x = ts["xf"]
+        t = gen.transform(t, angle=x.get("angle", 0.0), shift=tuple(x.get("shift", (0.0, 0.0))),
+                          scale=x.get("scale", 1.0), reflect=x.get("reflect", False))
     if ts.get("shift") is not None:
         t = gen.shift_cycles(t, ts["shift"])
     if ts.get("flip"):
@@ -350,8 +354,9 @@ def wkt_of(t):
     return rows
 
 
-def write_dmp(t, path):
-    """Surface Evolver dump in the layout forsys.surface_evolver reads (edge ids renumbered from 1)"""
+def write_dmp(t, path, only_cells=None):
+    """Surface Evolver dump in the layout forsys.surface_evolver reads (edge ids renumbered from 1);
+    only_cells: write faces/bodies of these cells only (leaves vertices and edges without a cell in the file)"""
     emap = {e: i + 1 for i, e in enumerate(t.edges)}
     by_pair = {}
     for e, (a, b) in t.edges.items():
@@ -364,12 +369,13 @@ def write_dmp(t, path):
     for e, (a, b) in t.edges.items():
         L.append(f"  {emap[e]}       {a}  {b}      density {t.edge_tension[e]:.6g} ")
     L += ["", "faces    /* edge loop */      "]
-    for c, cyc in t.cells.items():
+    cells = {c: cyc for c, cyc in t.cells.items() if only_cells is None or c in only_cells}
+    for c, cyc in cells.items():
         n = len(cyc)
         loop = [by_pair[(cyc[i], cyc[(i + 1) % n])] for i in range(n)]
         L.append(f"  {c}   " + " ".join(str(x) for x in loop) + " /*area 1*/")
     L += ["", "bodies  /* facets */"]
-    for c in t.cells:
+    for c in cells:
         L.append(f"  {c}       {c}  volume 1  /*actual: 1*/ lagrange_multiplier {t.pressures.get(c, 0.0):.10g}  centerofmass ")
     L += ["", "read", ""]
     with open(path, "w") as f:
@@ -497,7 +503,12 @@ def open_source(src):
             if kind == "se":
                 import forsys.surface_evolver as fse
                 p = os.path.join(d, "g.dmp")
-                write_dmp(t, p)
+                if src.get("orphans") and src["tissue"].get("subset") is not None:
+                    # dump lists the vertices and edges of the whole tissue but only the faces of the subset
+                    full = make_tissue({k: v for k, v in src["tissue"].items() if k != "subset"})
+                    write_dmp(full, p, only_cells=set(t.cells))
+                else:
+                    write_dmp(t, p)
                 o = fse.SurfaceEvolver(p)
                 return o.vertices, o.edges, o.cells
             import forsys.skeleton as fsk
@@ -849,6 +860,9 @@ def _variant(rng, base, subset, pts_choices, allow_plain=True):
     if rng.random() < 0.7:
         ts["moebius"] = float(rng.choice([0.05, 0.3, 0.6, 0.85]))
         ts["mseed"] = int(rng.integers(0, 100))
+    if rng.random() < 0.5:                                  # similarity image, also into negative coordinates
+        ts["xf"] = dict(angle=float(rng.uniform(0, 6.283)), shift=[float(rng.uniform(-300, 50)), float(rng.uniform(-300, 50))],
+                        scale=float(rng.choice([0.5, 1.0, 3.0])), reflect=bool(rng.random() < 0.5))
     if rng.random() < 0.7 or not allow_plain:
         ts["renum"] = int(rng.integers(0, 10 ** 6))
         ts["gaps"] = bool(rng.random() < 0.8)
@@ -942,7 +956,9 @@ def cases_b09(tier, seed):
             subs = _base_subsets(base)
             ts = _variant(rng, base, subs[int(rng.integers(len(subs)))], [0, 1, 3, 6])
         ts.pop("moebius", None)                             # coordinates are rounded to 1e-3 by the parser
-        add(dict(kind="se", tissue=ts))
+        if ts.get("xf"):
+            ts["xf"]["scale"] = max(1.0, ts["xf"]["scale"])
+        add(dict(kind="se", tissue=ts, orphans=bool(rng.random() < 0.5)))
     for _ in range(320 if thorough else 32):                # tessellation of centre sets
         typ = ["random", "jitter", "square", "hex"][len(specs) % 4]
         add(dict(kind="tess", centres=dict(type=typ, k=int(rng.integers(3, 8)), seed=int(rng.integers(0, 10 ** 6)),
@@ -953,7 +969,10 @@ def cases_b09(tier, seed):
                  thick=(1 if i % 2 else 3)))
     for name in PIX:                                        # tiny hand-drawn skeletons
         add(dict(kind="pix", name=name), [["gm", 4, True], ["frame"]])
-    for f in DMP_FILES:                                     # shipped inputs
+    dumps = DMP_FILES if thorough else [DMP_FILES[int(i)] for i in (
+        list(rng.choice([0, 1], 1)) + list(rng.choice(np.arange(2, 10), 3, replace=False))
+        + list(rng.choice(np.arange(10, 15), 3, replace=False)))]
+    for f in dumps:                                         # shipped inputs
         for _ in range(2 * m if thorough else 1):
             add(dict(kind="dmp", file=f))
     for f in TIF_FILES:
@@ -977,7 +996,7 @@ def cases_b11(tier, seed):
         specs.append(dict(check="B11", source=src, ne=int(ne if ne is not None else rng.integers(1, 13)),
                           rse=bool(rse if rse is not None else rng.random() < 0.6)))
 
-    small_pts = list(range(0, 41))
+    small_pts = list(range(0, 41)) + [0] * 14               # two-point interfaces (contraction) in ~25 % of the cases
     for base in ("hex_patch", "flower", "strip"):
         subs = _base_subsets(base)
         step = 1 if thorough else 3
@@ -987,7 +1006,7 @@ def cases_b11(tier, seed):
                 ts.setdefault("moebius", 0.3)                # arc tissues
                 add(dict(kind="gen", tissue=ts))
     for _ in range(1500 if thorough else 60):
-        ts = _voronoi_variant(rng, [0, 1, 2, 3, 4, 6, 9, 12, 17, 25], (25, 40))
+        ts = _voronoi_variant(rng, [0, 0, 0, 1, 2, 3, 4, 6, 9, 12, 17, 25], (25, 40))
         ts.setdefault("moebius", 0.5)
         add(dict(kind="gen", tissue=ts))
     for pts in range(0, 41):                                 # every interface length 2..42 on one small arc tissue
@@ -1002,8 +1021,8 @@ def cases_b11(tier, seed):
             for ne in range(2, 13):
                 add(dict(kind="tif", file=f), ne, ne % 2 == 0)
     else:
-        for f in DMP_FILES:
-            add(dict(kind="dmp", file=f))
+        for i in rng.choice(len(DMP_FILES), 6, replace=False):
+            add(dict(kind="dmp", file=DMP_FILES[int(i)]))
         for f in TIF_FILES:
             add(dict(kind="tif", file=f), int(rng.integers(2, 13)))
     return specs
@@ -1036,10 +1055,33 @@ def _run_all(specs):
     serial = mp.current_process().daemon or os.environ.get("FVC_BOUNDED_SERIAL") or len(specs) < 8
     if serial:
         return [_run_case(s) for s in specs]
-    ctx = mp.get_context("spawn")
-    n = min(NPROC, os.cpu_count() or 1, max(1, len(specs) // 4))
-    with ctx.Pool(n) as pool:
-        return list(pool.imap_unordered(_run_case, specs, chunksize=max(1, min(16, len(specs) // (n * 8)))))
+    pool, n = _get_pool()
+    return list(pool.imap_unordered(_run_case, specs, chunksize=max(1, min(16, len(specs) // (n * 8)))))
+
+
+_POOL = None
+
+
+def _get_pool():
+    """one spawn pool shared by the three checks of this module (importing forsys costs ~2.5 s per worker)"""
+    global _POOL
+    if _POOL is None:
+        import atexit
+        n = min(NPROC, os.cpu_count() or 1)
+        _POOL = (mp.get_context("spawn").Pool(n), n)
+        atexit.register(_close_pool)
+    return _POOL
+
+
+def _close_pool():
+    global _POOL
+    if _POOL is not None:
+        try:
+            _POOL[0].terminate()
+            _POOL[0].join()
+        except Exception:      # noqa
+            pass
+        _POOL = None
 
 
 def _params(spec):
